@@ -191,15 +191,25 @@ def run(ctx):
     thorough = ctx.tier == 'thorough'
     scen = SCENARIOS_THOROUGH if thorough else SCENARIOS_QUICK
     col = Collect(ctx, worker, batch_size=150)
-    for name, k in scen:
-        res = core.run_tlc('PortImpl', cfg(name, k), on_emit=col.push, raw_ints=True, timeout=3000,
-                           heap='16g')
-        ctx.add_tlc(res, 'PortImpl %s K=%d' % (name, k))
+    import threading
+    from concurrent.futures import ThreadPoolExecutor
+    plock = threading.Lock()
+
+    def push(line):
+        with plock:
+            col.push(line)
+    jobs = [(name, k, True) for name, k in scen]
     # schedules of the original (test-then-pop) granularity as extra drivers
-    for name, k in scen[:8]:
-        res = core.run_tlc('PortImpl', cfg(name, min(k, 3), atomic=False, check=False),
-                           on_emit=col.push, raw_ints=True, timeout=3000, heap='16g')
-        ctx.add_tlc(res, 'PortImpl %s K=%d (test-then-pop schedules)' % (name, min(k, 3)))
+    jobs += [(name, min(k, 3), False) for name, k in scen[:8]]
+
+    def one(job):
+        name, k, atomic = job
+        return job, core.run_tlc('PortImpl', cfg(name, k, atomic=atomic, check=atomic), on_emit=push,
+                                 raw_ints=True, timeout=3000, heap='8g',
+                                 workers=4 if thorough else 2)
+    with ThreadPoolExecutor(4 if thorough else 8) as ex:
+        for (name, k, atomic), res in ex.map(one, jobs):
+            ctx.add_tlc(res, 'PortImpl %s K=%d%s' % (name, k, '' if atomic else ' (test-then-pop schedules)'))
     col.finish()
     ctx.note('schedules_replayed', col.n)
     validate_histories(ctx, col.hist, 'PortTrace: histories of replayed schedules')
